@@ -90,6 +90,9 @@ def cases(draw):
         site=draw(st.sampled_from(SITES)),
         form=draw(st.sampled_from(FORMS)),
         fail_first=draw(st.integers(0, 3)) == 0,
+        mdir=draw(st.integers(0, 4)),
+        # without an error_handler() in the master the driver reports the error itself, in the debug log: the second reporting channel
+        master=draw(st.sampled_from(["std", "std", "std", "absent"])),
         caught=draw(st.booleans()),
         far=draw(st.sampled_from([0, 0, 0, 0, 33000, 66000])),
         pre=draw(st.lists(st.sampled_from(FILLERS), max_size=8)),
@@ -101,6 +104,11 @@ def cases(draw):
 
 
 FORMS = ["error", "div", "div", "badarg", "index", "ret_badarg", "ret_div", "local_div"]
+
+
+# directory of the main file: ordinary, or long enough for '/<file>:<line>' to pass 256 bytes
+MDIRS = ["t", "t", "t", "t/" + "m" * 120 + "/" + "n" * 125, "t/" + "m" * 200 + "/" + "n" * 100]
+MD = "t"
 
 
 def fail_stmt(form):
@@ -116,6 +124,8 @@ def fail_stmt(form):
 
 def build(case):
     """returns (files dict, expectation dict)"""
+    global MD
+    MD = MDIRS[case.get("mdir", 0) % len(MDIRS)]
     files = {}
     nfun = len(case["bodies"])
     site = case["site"]
@@ -147,7 +157,7 @@ def build(case):
     M.add("int gzero2() { return 0; }")
     if site == "global_init":
         gi = M.add("int gbad = 100 / gzero2();")
-        exp.update(site_file="t/c18main.c", site_line=gi, site_func=None, program="t/c18main.c")
+        exp.update(site_file=MD + "/c18main.c", site_line=gi, site_func=None, program=MD + "/c18main.c")
 
     def emit_function(L, i, fname_file):
         nonlocal k
@@ -198,7 +208,7 @@ def build(case):
 
     upto = nfun - 1 if (last_in or site == "inherit") else nfun
     for i in range(upto):
-        emit_function(M, i, "t/c18main.c")
+        emit_function(M, i, MD + "/c18main.c")
     if last_in:
         # a chain of nested include files; the innermost defines the last function
         M.add('#include "/t/c18inc1.h"')
@@ -228,14 +238,14 @@ def build(case):
         files["t/c18par.c"] = P.text()
         exp["program"] = "t/c18par.c"
     elif exp["program"] is None:
-        exp["program"] = "t/c18main.c"
+        exp["program"] = MD + "/c18main.c"
     # entry point
     if case["caught"]:
         rl = M.add("mixed run() { mixed e = catch(f0(0)); return e; }")
     else:
         rl = M.add("mixed run() { return f0(0); }")
     exp["run_line"] = rl
-    files["t/c18main.c"] = M.text()
+    files[MD + "/c18main.c"] = M.text()
     files["t/c18pre.h"] = "// a header of three lines\n#define C18_PRE 1\nint c18_pre_declared();\n"
     return files, exp
 
@@ -248,13 +258,13 @@ def evaluate_case(ctx, w, case):
     files, exp = build(case)
     for path, text in files.items():
         w.write(path, text)
-    steps = [["call", "/master", "set_policy", arg("handler"), arg("trace")], ["call", "/master", "verif_errors"], ["load", "t/c18main.c"],
+    steps = [["call", "/master", "set_policy", arg("handler"), arg("trace")], ["call", "/master", "verif_errors"], ["load", MD + "/c18main.c"],
              ["call", "/master", "verif_take_compile_errors"]]
     if case["site"] != "global_init":
-        steps += [["call", "t/c18main", "run"]]
+        steps += [["call", MD + "/c18main", "run"]]
     steps += [["call", "/master", "verif_errors"]]
     res = w.run(steps)
-    info = "case %r\nexpectation %r\n--- main file (first 60 lines)\n%s" % (case, exp, "\n".join("%4d %s" % (i + 1, l) for i, l in enumerate(files["t/c18main.c"].split("\n")[:60])))
+    info = "case %r\nexpectation %r\n--- main file (first 60 lines)\n%s" % (case, exp, "\n".join("%4d %s" % (i + 1, l) for i, l in enumerate(files[MD + "/c18main.c"].split("\n")[:60])))
     if res.timed_out:
         ctx.inconclusive["timeout"] += 1
         return None, None
@@ -270,6 +280,21 @@ def evaluate_case(ctx, w, case):
     errs = [dict((k, v) for k, v in e[1]) for e in errs]
     want_caught = 1 if case["caught"] and case["site"] != "global_init" else 0
     mine = [e for e in errs if any(t in e.get("error", "") for t in ("boom", "ivision", "Bad argument", "ndex out of bounds"))]
+    absent = case.get("master") == "absent"
+    if absent:
+        # the driver's own report: {"object":"..","program":"..","line":"/<file>:<line>"}<tab><message>
+        import json as _json
+        for ln in res.stderr.split("\n"):
+            if ln.startswith('{"object"') and "\t" in ln and any(t in ln for t in ("boom", "ivision", "Bad argument", "ndex out of bounds")):
+                try:
+                    hd = _json.loads(ln.split("\t")[0])
+                except ValueError:
+                    continue
+                loc = hd.get("line", "")
+                fpart, _, lpart = loc.rpartition(":")
+                mine.append(dict(error=ln.split("\t", 1)[1], file=fpart, line=int(lpart) if lpart.isdigit() else loc, program=hd.get("program"),
+                                 object=hd.get("object"), caught=want_caught, trace=None))
+                break
     if not mine:
         return ("error-not-handed-to-master", "errors seen %r\n%s" % (errs, info)), None
     e = mine[0]
@@ -282,12 +307,15 @@ def evaluate_case(ctx, w, case):
     if norm(e.get("program")) != exp["program"]:
         return ("wrong-program:" + case["site"], "error_handler got program %r, expected %r\n%s" % (e.get("program"), exp["program"], info)), None
     if case["site"] != "global_init":
-        if norm(e.get("object")) != "t/c18main":
+        if norm(e.get("object")) != MD + "/c18main":
             return ("wrong-object", "error_handler got object %r\n%s" % (e.get("object"), info)), None
+        if absent:
+            nt = exp["site_line"] > 10
+            return None, nt
         # the trace: our functions in order, innermost last, with call-site lines
         tr = [dict((k, v) for k, v in f[1]) for f in e.get("trace", ("a", []))[1]]
         seq = [(f.get("function"), norm(f.get("file")), f.get("line")) for f in tr]
-        want = [("run", "t/c18main.c", exp["run_line"])] + exp["chain"]
+        want = [("run", MD + "/c18main.c", exp["run_line"])] + exp["chain"]
         pos = 0
         for wfn, wfile, wline in want:
             found = None
@@ -311,22 +339,27 @@ def evaluate_case(ctx, w, case):
 _workers = {}
 
 
-def get_worker(ctx):
-    w = _workers.get(ctx.rundir)
+def get_worker(ctx, master="std"):
+    key = (ctx.rundir, master)
+    w = _workers.get(key)
     if w is None:
-        w = Worker(ctx.scratch("w"), timeout=30)
-        _workers[ctx.rundir] = w
+        files = {}
+        if master == "absent":
+            import os
+            from ..worker import BASE_MUDLIB
+            files["master.c"] = open(os.path.join(BASE_MUDLIB, "master.c")).read().replace("mixed error_handler(", "mixed error_handler_absent(")
+        w = Worker(ctx.scratch("w" + master), timeout=30, mudlib_files=files)
+        _workers[key] = w
     return w
 
 
 def close_workers(ctx):
-    w = _workers.pop(ctx.rundir, None)
-    if w:
-        w.close()
+    for key in [k for k in _workers if k[0] == ctx.rundir]:
+        _workers.pop(key).close()
 
 
 def check(ctx, case):
-    f, nt = evaluate_case(ctx, get_worker(ctx), case)
+    f, nt = evaluate_case(ctx, get_worker(ctx, case.get("master", "std")), case)
     if f:
         ctx.evaluations += 1
         ctx.fail(f[0], case, f[1])
@@ -334,7 +367,7 @@ def check(ctx, case):
     if nt is None:
         ctx.case_done(None, ["not-executed"])
         return
-    cl = ["site:" + case["site"], "form:" + case["form"], "caught" if case["caught"] else "uncaught"] + (["far:%d" % case["far"]] if case["far"] else [])
+    cl = ["site:" + case["site"], "form:" + case["form"], "master:" + case.get("master", "std"), "long-path" if case.get("mdir", 0) >= 3 else "short-path", "caught" if case["caught"] else "uncaught"] + (["far:%d" % case["far"]] if case["far"] else [])
     ctx.case_done(runner.khash(case) if nt else None, cl, sample=dict(site=case["site"], edges=case["edges"], far=case["far"], pre=case["pre"]))
 
 
@@ -354,7 +387,7 @@ def shard_main(ctx):
 
 def replay(ctx, case):
     try:
-        f, _ = evaluate_case(ctx, get_worker(ctx), case)
+        f, _ = evaluate_case(ctx, get_worker(ctx, case.get("master", "std")), case)
         return f
     finally:
         close_workers(ctx)
